@@ -325,7 +325,13 @@ func (g *gen) paths(e string, t *ty, want *ty, ref, konst bool, depth int, out *
 	case kMat:
 		col := vec(t.r, "f32")
 		idx := fmt.Sprint(g.pick("col", t.c))
-		g.paths(e+"["+idx+"]", col, want, ref, konst, depth+1, out)
+		k := konst
+		if g.fnHas(tU32) && g.chance("dynmat", 40) && !excludedQuiet("c09-matrix-dynamic-column") {
+			// a run-time column index, on references and on by-value matrices alike
+			idx = g.dynIndex(t.c)
+			k = false
+		}
+		g.paths(e+"["+idx+"]", col, want, ref, k, depth+1, out)
 	case kArray:
 		idx := fmt.Sprint(g.pick("idx", t.n))
 		k := konst
